@@ -105,7 +105,7 @@ func S13TensorRetention(p *core.Program, a *spec.Anchors, r *core.Report) {
 	}
 	r.Count("S13.functions_scanned", nFns)
 	r.Count("S13.tensor_stores", nStores)
-	r.Min("S13.functions_scanned", 20)
+	r.Min("S13.functions_scanned", 12)
 	r.Min("S13.tensor_stores", 1)
 }
 
